@@ -70,8 +70,11 @@ impl Reorg {
 
     let mut wtx = index.begin_write()?;
 
-    let oldest_savepoint =
-      wtx.get_persistent_savepoint(wtx.list_persistent_savepoints()?.min().unwrap())?;
+    let Some(oldest_savepoint) = wtx.list_persistent_savepoints()?.min() else {
+      return Err(anyhow!(reorg::Error::Unrecoverable));
+    };
+
+    let oldest_savepoint = wtx.get_persistent_savepoint(oldest_savepoint)?;
 
     wtx.restore_savepoint(&oldest_savepoint)?;
 
@@ -88,10 +91,15 @@ impl Reorg {
       crate::verif::crash_point("post_rollback_commit");
     }
 
-    log::info!(
-      "successfully rolled back database to height {}",
-      index.begin_read()?.block_count()?
-    );
+    let block_count = index.begin_read()?.block_count()?;
+
+    // savepoints are not aligned to multiples of the savepoint interval, so the
+    // oldest one may still contain blocks from the abandoned branch
+    if block_count > height.saturating_sub(depth) + 1 {
+      return Err(anyhow!(reorg::Error::Unrecoverable));
+    }
+
+    log::info!("successfully rolled back database to height {block_count}");
 
     Ok(())
   }
